@@ -108,7 +108,9 @@ Judge(s, e) ==
   ELSE
   CASE e.kind = "read" ->
          [why |-> base \cup (IF same /\ CountOk(e, s) THEN {} ELSE {"read changed the collection"})
-                       \cup (IF e.exp = "MustRefuse" /\ e.payload > 0 THEN {"invalid read returned data"} ELSE {}),
+                       \cup (IF e.exp = "MustRefuse" /\ e.payload > 0 THEN {"invalid read returned data"} ELSE {})
+                       \* "keeps serving later requests": a valid point lookup of a document the collection holds is served
+                       \cup (IF e.probe > 0 /\ s[e.probe].p /\ e.payload = 0 THEN {"valid lookup of a live document found nothing"} ELSE {}),
           kv |-> s]
     [] e.kind = "write" ->
          LET op == e.groups[1].op IN
